@@ -29,6 +29,61 @@ fn fault_rng(name: &str) -> HRng {
 struct RunOut {
     rng_scalars: Vec<Scalar>,
     bytes: Vec<u8>,
+    /// structural findings on the transcript-RNG trace (see `rng_structure`)
+    structure: Vec<String>,
+}
+
+/// Every transcript RNG the prover draws from must be (1) built from the transcript after the latest absorbed message,
+/// (2) rekeyed with the complete serialised witness (every value and every blinding component), (3) finalised with
+/// external randomness -- before the first draw. Observed on the merlin trace; label-agnostic.
+fn rng_structure(trace: &[merlin::observe::Event], wit: &Wit) -> Vec<String> {
+    use merlin::observe::Op;
+    let mut out = Vec::new();
+    let mut needles: Vec<(String, Vec<u8>)> = Vec::new();
+    for (j, v) in wit.values.iter().enumerate() {
+        needles.push((format!("value[{}]", j), v.to_le_bytes().to_vec()));
+        for (k, r) in wit.blindings[j].iter().enumerate() {
+            needles.push((format!("blinding[{}][{}]", j, k), r.as_bytes().to_vec()));
+        }
+    }
+    // state of the current RNG
+    let mut built = false;
+    let mut keyed: Vec<u8> = Vec::new();
+    let mut finalized = false;
+    let mut appended_since_build = false;
+    let mut fills = 0usize;
+    for e in trace {
+        match &e.op {
+            Op::BuildRng => {
+                built = true;
+                keyed.clear();
+                finalized = false;
+                appended_since_build = false;
+            },
+            Op::Rekey { data, .. } => keyed.extend_from_slice(data),
+            Op::Finalize { .. } => finalized = true,
+            Op::Append { .. } => appended_since_build = true,
+            Op::RngFill { out: o } if o.len() == 64 => {
+                fills += 1;
+                if !built || !finalized {
+                    out.push(format!("nonce draw #{} comes from an RNG that was not built / finalised with external randomness", fills));
+                }
+                if appended_since_build {
+                    out.push(format!("nonce draw #{} comes from an RNG built before the latest message was absorbed into the transcript", fills));
+                }
+                for (name, n) in &needles {
+                    if !keyed.windows(n.len()).any(|w| w == &n[..]) {
+                        out.push(format!("nonce draw #{} comes from an RNG that was not keyed with witness datum {}", fills, name));
+                        break;
+                    }
+                }
+            },
+            _ => {},
+        }
+    }
+    out.sort();
+    out.dedup();
+    out
 }
 
 fn run_prover(cfg: &Cfg, wit: &Wit, ctx: &Ctx, pc: &PedersenGens<F>, fault: &str) -> Result<RunOut, String> {
@@ -40,6 +95,7 @@ fn run_prover(cfg: &Cfg, wit: &Wit, ctx: &Ctx, pc: &PedersenGens<F>, fault: &str
         Ok(Ok(p)) => Ok(RunOut {
             rng_scalars: trace_rng_scalars(&trace),
             bytes: F::to_bytes(&p),
+            structure: rng_structure(&trace, wit),
         }),
         Ok(Err(e)) => Err(crate::api::err_name(&e)),
         Err(p) => Err(format!("panic: {}", p)),
@@ -184,6 +240,13 @@ fn hedge_case(cfg: Cfg, seeded: bool, fault: &'static str) -> Box<dyn Case> {
                     continue;
                 },
             };
+            // every RNG the nonces come from is keyed with the whole witness and built from the current transcript
+            res.validated += 1;
+            for (which, r) in [("first", &ra), ("second", &rb)] {
+                if let Some(f) = r.structure.first() {
+                    res.violate(format!("{}/rng-structure/{}", pair.name, which), format!("{} ({} findings)", f, r.structure.len()));
+                }
+            }
             // identical runs are reproducible
             res.validated += 1;
             if ra.bytes != ra2.bytes {
@@ -226,7 +289,9 @@ pub fn run(rep: &mut Report) {
                 seed {absent, present} x run pairs differing in exactly one of: witness value with the same commitment (H = G_0), witness \
                 blinding components (a,b) with the same commitment (G_b = G_a, every pair), transcript context, one commitment, one \
                 promise, bit length, one blinding generator; oracle: the RNG-derived nonces of the two runs (transcript-RNG outputs) share \
-                no element (all pairs), identical runs are bit-identical, nonces within a run stay distinct"
+                no element (all pairs), identical runs are bit-identical, nonces within a run stay distinct, and on the merlin trace every \
+                RNG a nonce is drawn from was built after the latest absorbed message, keyed with the complete witness serialisation \
+                and finalised with external randomness"
         .into();
     rep.assume("the external RNG is only consulted through RngCore::fill_bytes (merlin's finalize); fault models replace that stream");
     let mut cases: Vec<Box<dyn Case>> = Vec::new();
